@@ -116,9 +116,10 @@ Definition do_add_o (loaded : nat -> bool) (x : nat) (rows : list nat) (sd : set
   else let sd1 := if sd_full sd then sd else load_for_o loaded rows [x] sd in
        if memn x (sd_items sd1) then sd1 else sd_add sd1 x.
 
-(* SetInstance.remove on a one-to-many collection AS THE CODE IS: reverse.__set__(item, None) already updates this SetData through
+(* SetInstance.remove on a one-to-many collection as the code was BEFORE /repo 11753a1 (kept so that a revert is recognised; the tie uses it
+   only when core.py lacks the repair): reverse.__set__(item, None) already updates this SetData through
    reverse_remove (item out, count - 1, added / removed), and then remove()'s common tail does it a second time:
-   count - 1 again, and the item is put into `removed` even when it had only been added in this session (recorded finding). *)
+   count - 1 again, and the item is put into `removed` even when it had only been added in this session. *)
 Definition sd_remove_o (sd : setdata) (x : nat) : setdata :=
   let sd1 := sd_remove sd x in
   mksd (sd_items sd1) (sd_full sd1) (sd_added sd1)
@@ -129,7 +130,7 @@ Definition do_remove_o (loaded : nat -> bool) (x : nat) (rows : list nat) (sd : 
   else let sd1 := if sd_full sd then sd else load_for_o loaded rows [x] sd in
        if memn x (sd_items sd1) then sd_remove_o sd1 x else sd1.
 
-(* the same with the tail skipped for one-to-many collections (proposed_fixes/C23-one-to-many-remove-bookkeeping.diff) *)
+(* the code since /repo 11753a1: the tail is skipped for one-to-many collections *)
 Definition do_remove_o_fixed (loaded : nat -> bool) (x : nat) (rows : list nat) (sd : setdata) : setdata :=
   if memn x (sd_removed sd) then sd
   else let sd1 := if sd_full sd then sd else load_for_o loaded rows [x] sd in
